@@ -41,10 +41,13 @@ def _scale(*arrs):
     return m
 
 
-def certificate(P, alpha, y, x, depth=0):
+def certificate(P, alpha, y, x, depth=0, tol=None):
     import sigpy.prox as SP
     name = type(P).__name__
-    tol = _tol(y)
+    # the tolerance class is fixed at the outermost call (and widened when a unitary
+    # transform turns the data into single precision), not re-derived from the dtype of
+    # intermediate points of the recursion
+    tol = max(tol or 0.0, _tol(y))
     if not isinstance(x, np.ndarray):
         return False, name + ":type", "result is %r, not an array" % type(x)
     if tuple(x.shape) != tuple(y.shape):
@@ -57,13 +60,20 @@ def certificate(P, alpha, y, x, depth=0):
     cls = type(P)
 
     if cls is SP.NoOp:
-        ok = bool(np.array_equal(x, y))
+        # exact at top level; inside a nesting the point being certified was obtained by
+        # arithmetic ((y - x)/alpha, A x), so round-off is allowed
+        if depth == 0:
+            ok = bool(np.array_equal(x, y))
+        else:
+            ok = bool(np.max(np.abs(x - y)) <= eps * 10) if x.size else True
         return ok, "NoOp", "" if ok else "NoOp changed its input"
 
     if cls is SP.L1Reg:
         t = np.asarray(P.lamda) * np.asarray(alpha)
         ax = np.abs(x)
-        nz = ax > 0
+        # entries at round-off level count as zeros (the certified point may come out of
+        # arithmetic in a nesting: exact zeros become 1e-16)
+        nz = ax > eps * 10
         r = y - x
         tt = np.broadcast_to(t, y.shape)
         bad1 = np.abs(r[nz] - tt[nz] * x[nz] / ax[nz])
@@ -88,7 +98,7 @@ def certificate(P, alpha, y, x, depth=0):
             ok = e <= eps * 10
             return ok, "L2Reg", "" if ok else "(1+al)x = y + al*z off by %.3g" % e
         ok, br, d = certificate(P.proxh, np.asarray(alpha) / (1 + la),
-                                v.astype(y.dtype, copy=False), x, depth + 1)
+                                v.astype(y.dtype, copy=False), x, depth + 1, tol)
         return ok, "L2Reg+" + br, d
 
     if cls is SP.L2Proj:
@@ -138,7 +148,7 @@ def certificate(P, alpha, y, x, depth=0):
                 "infeasible input projected strictly inside: ||x||_1 = %.6g, eps = %.6g" % (
                     n1x, e_)
         ax, ay = np.abs(x), np.abs(y)
-        nz = ax > 0
+        nz = ax > eps * 10
         if not nz.any():
             return (e_ <= eps), "L1Proj:allzero", "all-zero projection with eps>0"
         th = ay[nz] - ax[nz]
@@ -204,7 +214,7 @@ def certificate(P, alpha, y, x, depth=0):
         a = np.asarray(alpha)
         w = (y - x) / a
         ok, br, d = certificate(P.prox, 1 / a, y / a, w.astype(y.dtype, copy=False),
-                                depth + 1)
+                                depth + 1, tol)
         return ok, "Conj(" + br + ")", d
 
     if cls is SP.Stack:
@@ -224,7 +234,7 @@ def certificate(P, alpha, y, x, depth=0):
         brs = []
         okall = True
         for p, s, yy, xx, a in zip(P.proxs, P.shapes, ys, xs, als):
-            ok, br, d = certificate(p, a, yy.reshape(s), xx.reshape(s), depth + 1)
+            ok, br, d = certificate(p, a, yy.reshape(s), xx.reshape(s), depth + 1, tol)
             brs.append(br)
             if ok is False:
                 return False, "Stack[" + ",".join(brs) + "]", d
@@ -245,9 +255,11 @@ def certificate(P, alpha, y, x, depth=0):
             u2 = np.linalg.norm(A(A.H(f)) - f) / np.linalg.norm(f)
         except Exception:
             return None, "Unitary:probe-failed", ""
+        Ay, Ax = A(y), A(x)
+        tol = max(tol, _tol(Ay))           # e.g. sigpy's fft casts real input to complex64
         if max(u1, u2) > 1e3 * tol:
             return None, "Unitary:not-unitary", ""
-        ok, br, d = certificate(P.prox, alpha, A(y), A(x), depth + 1)
+        ok, br, d = certificate(P.prox, alpha, Ay, Ax, depth + 1, tol)
         return ok, "Unitary(" + br + ")", d
 
     return None, name + ":unknown-class", ""
